@@ -221,6 +221,7 @@ def facts_c(doc_path, ctext, index=0, root=None):
     out.append('#define D_T %d' % T)
     out.append('#define D_MAXI %d' % maxi)
     out.append('#define D_MAXTG %d' % maxtg)
+    out.append('#define D_TSEL %d' % sum(1 for s_, _, _ in trans if elems[e2d[s_]]['kind'] <= 3))  # transitions that can be selected (source is a proper state)
     out.append('static const int d_kind[D_N] = { %s };' % ', '.join(str(elems[e2d[k]]['kind']) for k in range(n)))
     out.append('static const int d_parent[D_N] = { %s };' % ', '.join(str(d2e[elems[e2d[k]]['parent']] if elems[e2d[k]]['parent'] is not None else 0) for k in range(n)))
     out.append('static const char *const d_id[D_N] = { %s };' % ', '.join(c_str(elems[e2d[k]]['id']) for k in range(n)))
